@@ -87,6 +87,20 @@ def run_family(ctx, replay, key, mode, n_quick, n_thorough, rule, assumptions):
         e = events[i - 1]
         rec = classify(key, e, evs)
         ctx.violation(rec, dict(events=evs, rejected_event_index=i - case[0] + 1))
+    if not replay and key in ("c02", "c03"):
+        # the push-back channel under the framer: PushBack.tla checked exhaustively, and the real type driven through seeded
+        # send / close / push / get sequences whose every result the model must explain (a conformance note, not a verdict:
+        # the listed properties are judged on the framer's output above)
+        ctx.tlc_mc("PushBack", "PushBack.cfg", timeout=300)
+        ptrace = ctx.path("pushback.ndjson")
+        ctx.drive(drv, ["pushback", ptrace])
+        pres = ctx.tlc_trace("PushBack_Trace", "PushBack_Trace.cfg", ptrace, timeout=600)
+        pev = vlib.read_ndjson(ptrace)
+        ctx.extra["pushback_conformance"] = dict(events=len(pev), unexplained=len(pres["bad"]),
+                                                 first=pev[pres["bad"][0] - 1] if pres["bad"] else None)
+        if pres["bad"]:
+            vlib.log("NOTE model-drift %s: rtcm/pushback left the PushBack model at %d events, first %s (not a verdict)"
+                     % (ctx.pid, len(pres["bad"]), pev[pres["bad"][0] - 1]))
     drift = res["badk"].get("drift", [])
     if drift:
         ctx.extra["model_drift"] = dict(events=len(drift), first=_short(events[drift[0] - 1]))
